@@ -202,6 +202,21 @@ fn vp_native_head_hostile_inputs_no_panic_body() {
             cases += 1; crate::verif_native_watchdog::progress();
         } }
     }
+    // coded bodies that are hardly there: every first byte, alone or followed by one of a few second bytes, under every coding and
+    // framing (the first chunk being one byte long among them), read to the end
+    for coding in ["gzip", "deflate", "DEFLATE", "x-gzip", "identity"] { for first in 0u16..=255 { for second in [None, Some(0x9cu8), Some(0xda), Some(0x01), Some(0x00), Some(0xff), Some(0x8b)] { for framing in 0..3 {
+        let mut body = vec![first as u8]; if let Some(b) = second { body.push(b); }
+        let mut w = format!("HTTP/1.1 200 OK\r\nContent-Encoding: {}\r\n", coding).into_bytes();
+        match framing {
+            0 => { w.extend_from_slice(format!("Content-Length: {}\r\n\r\n", body.len()).as_bytes()); w.extend_from_slice(&body); }
+            1 => { w.extend_from_slice(b"Transfer-Encoding: chunked\r\n\r\n"); for b in &body { w.extend_from_slice(b"1\r\n"); w.push(*b); w.extend_from_slice(b"\r\n"); } w.extend_from_slice(b"0\r\n\r\n"); }
+            _ => { w.extend_from_slice(b"\r\n"); w.extend_from_slice(&body); }
+        }
+        let req = PreparedRequest::new(Method::GET, "http://a.test/");
+        let r = std::panic::catch_unwind(std::panic::AssertUnwindSafe(|| { let _ = parse_response(BaseStream::mock(w), &req, req.url()).and_then(|r| r.bytes()); }));
+        assert!(r.is_ok(), "the client panicked on a {} body {:02x?} (framing {})", coding, body, framing);
+        cases += 1; crate::verif_native_watchdog::progress();
+    } } } }
     // bodies that are not text: every sequence of up to 4 symbols over lead bytes, continuation bytes, an ASCII letter and bytes
     // that are never valid, after a short valid prefix, through every helper that turns a body into text or a string
     {
